@@ -156,7 +156,7 @@ def sanitize(trees):
     import re
 
     def ok(s):
-        return bool(s) and re.match(r'^[^\s()";|]+$', s) is not None
+        return bool(s) and re.fullmatch(r'[^\s()";|]+', s) is not None
 
     def rec(t):
         if isinstance(t, str):
